@@ -1,5 +1,5 @@
 (* C05 oracle: runs the extracted models of Robust/{Chase,Alloc,Arith}.v.
-   A <hits> <env> <start>   hits = "100,101|102" (alternatives of a `||` chain), env = "0:1,-;1:0"
+   A <hits> <env> <start>   hits = "100,101|102" (alternatives of a `||` chain, "-" = an empty hit set), env = "0:1,-;1:0"
                             (rule name : first type2 of each type choice, "-" = not a name), start = name
    L <hex n> <len>          read_len n (len zero bytes)
    R <op> <z> <z>           arith_report; z = [-]hex *)
@@ -36,7 +36,7 @@ let parse_env s =
     | [nm; cs] -> (n_of_int (int_of_string nm),
                    List.map (fun a -> if a = "-" then Other else Alias (n_of_int (int_of_string a))) (split ',' cs))
     | _ -> failwith "env") (split ';' s)
-let parse_hits s = List.map (fun h -> List.map (fun x -> n_of_int (int_of_string x)) (split ',' h)) (split '|' s)
+let parse_hits s = List.map (fun h -> if h = "-" then [] else List.map (fun x -> n_of_int (int_of_string x)) (split ',' h)) (split '|' s)
 let () =
   try
     while true do
